@@ -1,8 +1,306 @@
 import ApolloModel.Model.Proto
-open Apollo Apollo.Proto
+import ApolloModel.Model.Execution
+import Driver.D28
+open Apollo Apollo.Proto Apollo.Exec
 namespace Driver
 
-/-- streams of property C26 are named `c26.<name>` -/
-def c26 (_stream : String) (_fs : List String) : String := "unknown-stream"
+/-! streams of property C26 are named `c26.<name>`; token code written by harness/src/p26.rs -/
+namespace D26
+open D28
+
+mutual
+def decAVal : Nat → Toks → Option (AVal × Toks)
+  | 0, _ => none
+  | fuel + 1, ts =>
+    match ts with
+    | [] => none
+    | t :: rest =>
+      match t.toList with
+      | ['z'] => some (.null, rest)
+      | ['t'] => some (.bool true, rest)
+      | ['f'] => some (.bool false, rest)
+      | 'q' :: ds => some (.var (String.ofList ds), rest)
+      | 'i' :: ds => (parseInt (String.ofList ds)).map fun z => (.int z, rest)
+      | 'd' :: ds => some (.float (String.ofList ds), rest)
+      | 's' :: ds => some (.str (String.ofList ds), rest)
+      | 'e' :: ds => some (.enum (String.ofList ds), rest)
+      | 'a' :: ds => do
+        let n ← (String.ofList ds).toNat?
+        let (xs, r) ← decAVals fuel n rest
+        pure (.list xs, r)
+      | 'o' :: ds => do
+        let n ← (String.ofList ds).toNat?
+        let (kvs, r) ← decAFields fuel n rest
+        pure (.obj kvs, r)
+      | _ => none
+def decAVals : Nat → Nat → Toks → Option (List AVal × Toks)
+  | 0, _, _ => none
+  | _ + 1, 0, ts => some ([], ts)
+  | fuel + 1, k + 1, ts => do
+    let (x, r) ← decAVal fuel ts
+    let (xs, r2) ← decAVals fuel k r
+    pure (x :: xs, r2)
+def decAFields : Nat → Nat → Toks → Option (List (String × AVal) × Toks)
+  | 0, _, _ => none
+  | _ + 1, 0, ts => some ([], ts)
+  | fuel + 1, k + 1, ts =>
+    match ts with
+    | [] => none
+    | key :: rest => do
+      let (x, r) ← decAVal fuel rest
+      let (xs, r2) ← decAFields fuel k r
+      pure ((tail1 key, x) :: xs, r2)
+end
+
+def decCond (t : String) : Option (Option Cond) :=
+  match t.toList with
+  | ['-'] => some none
+  | ['t'] => some (some (.const true))
+  | ['f'] => some (some (.const false))
+  | 'v' :: n => some (some (.var (String.ofList n)))
+  | _ => none
+
+def decDirs : Toks → Option (Dirs × Toks)
+  | a :: b :: rest => do
+    let s ← decCond a
+    let i ← decCond b
+    pure ({ skip := s, incl := i }, rest)
+  | _ => none
+
+mutual
+def decSel : Nat → Toks → Option (Sel × Toks)
+  | 0, _ => none
+  | fuel + 1, ts =>
+    match ts with
+    | [] => none
+    | t :: rest =>
+      match t.toList with
+      | ['F'] =>
+        match rest with
+        | al :: nm :: cnt :: rest2 => do
+          let alias := if al == "-" then none else some (tail1 al)
+          let c ← cnt.toNat?
+          let (args, r) ← decAFields fuel c rest2
+          let (dirs, r2) ← decDirs r
+          let (sub, r3) ← decSels fuel r2
+          pure (.field alias (tail1 nm) args dirs sub, r3)
+        | _ => none
+      | 'P' :: nm => do
+        let (dirs, r) ← decDirs rest
+        pure (.spread (String.ofList nm) dirs, r)
+      | ['N'] =>
+        match rest with
+        | c :: rest2 => do
+          let cond := if c == "-" then none else some (tail1 c)
+          let (dirs, r) ← decDirs rest2
+          let (sub, r2) ← decSels fuel r
+          pure (.inline cond dirs sub, r2)
+        | _ => none
+      | _ => none
+/-- `<count> sel…` -/
+def decSels : Nat → Toks → Option (List Sel × Toks)
+  | 0, _ => none
+  | fuel + 1, ts =>
+    match ts with
+    | [] => none
+    | cnt :: rest => do
+      let c ← cnt.toNat?
+      decSelN fuel c rest
+def decSelN : Nat → Nat → Toks → Option (List Sel × Toks)
+  | 0, _, _ => none
+  | _ + 1, 0, ts => some ([], ts)
+  | fuel + 1, k + 1, ts => do
+    let (x, r) ← decSel fuel ts
+    let (xs, r2) ← decSelN fuel k r
+    pure (x :: xs, r2)
+end
+
+def decFrags (fuel : Nat) : Nat → Toks → Option (AList Frag × Toks)
+  | 0, ts => some ([], ts)
+  | k + 1, nm :: c :: rest => do
+    let (sub, r) ← decSels fuel rest
+    let (more, r2) ← decFrags fuel k r
+    pure ((tail1 nm, { cond := tail1 c, sub := sub }) :: more, r2)
+  | _ + 1, _ => none
+
+mutual
+def decRV : Nat → Toks → Option (RV × Toks)
+  | 0, _ => none
+  | fuel + 1, ts =>
+    match ts with
+    | [] => none
+    | t :: rest =>
+      match t.toList with
+      | ['l'] => do
+        let (v, r) ← decVal fuel rest
+        pure (.leaf v.toJson, r)
+      | ['x'] => some (.error, rest)
+      | ['s'] => some (.skip, rest)
+      | ['e'] => some (.echo, rest)
+      | 'L' :: ds => do
+        let n ← (String.ofList ds).toNat?
+        let (xs, r) ← decRVs fuel n rest
+        pure (.list xs, r)
+      | 'o' :: tn =>
+        match rest with
+        | idt :: rest2 => do
+          let id ← idt.toNat?
+          pure (.object (String.ofList tn) id, rest2)
+        | [] => none
+      | _ => none
+def decRVs : Nat → Nat → Toks → Option (List RV × Toks)
+  | 0, _, _ => none
+  | _ + 1, 0, ts => some ([], ts)
+  | fuel + 1, k + 1, ts => do
+    let (x, r) ← decRV fuel ts
+    let (xs, r2) ← decRVs fuel k r
+    pure (x :: xs, r2)
+end
+
+def decWorld (fuel : Nat) : Nat → Toks → Option (World × Toks)
+  | 0, ts => some ([], ts)
+  | k + 1, idt :: f :: rest => do
+    let id ← idt.toNat?
+    let (rv, r) ← decRV fuel rest
+    let (more, r2) ← decWorld fuel k r
+    pure (((id, tail1 f), rv) :: more, r2)
+  | _ + 1, _ => none
+
+def decFieldDefs (fuel : Nat) : Nat → Toks → Option (List FieldDef × Toks)
+  | 0, ts => some ([], ts)
+  | k + 1, nm :: cnt :: rest => do
+    let c ← cnt.toNat?
+    let (args, r) ← decDefs fuel c rest
+    let (ty, r2) ← decTy fuel r
+    let (more, r3) ← decFieldDefs fuel k r2
+    pure ({ name := tail1 nm, args := args, ty := ty } :: more, r3)
+  | _ + 1, _ => none
+
+structure SchemaAcc where
+  inputs : AList TypeDef := []
+  objects : AList ObjectDef := []
+  interfaces : List String := []
+  unions : AList (List String) := []
+
+def decSchemaTypes (fuel : Nat) : Nat → Toks → SchemaAcc → Option (SchemaAcc × Toks)
+  | 0, ts, acc => some (acc, ts)
+  | k + 1, ts, acc =>
+    match ts with
+    | [] => none
+    | t :: rest =>
+      match t.toList with
+      | 'S' :: nm => decSchemaTypes fuel k rest { acc with inputs := acc.inputs ++ [(String.ofList nm, .scalar)] }
+      | 'F' :: nm => decSchemaTypes fuel k rest { acc with interfaces := acc.interfaces ++ [String.ofList nm] }
+      | 'E' :: nm =>
+        match rest with
+        | cnt :: rest2 => do
+          let c ← cnt.toNat?
+          let (vals, r) ← decNames c rest2
+          decSchemaTypes fuel k r { acc with inputs := acc.inputs ++ [(String.ofList nm, .enum vals)] }
+        | [] => none
+      | 'U' :: nm =>
+        match rest with
+        | cnt :: rest2 => do
+          let c ← cnt.toNat?
+          let (ms, r) ← decNames c rest2
+          decSchemaTypes fuel k r { acc with unions := acc.unions ++ [(String.ofList nm, ms)] }
+        | [] => none
+      | 'I' :: nm =>
+        match rest with
+        | cnt :: rest2 => do
+          let c ← cnt.toNat?
+          let (fs, r) ← decDefs fuel c rest2
+          decSchemaTypes fuel k r { acc with inputs := acc.inputs ++ [(String.ofList nm, .input fs)] }
+        | [] => none
+      | 'O' :: nm =>
+        match rest with
+        | cnt :: rest2 => do
+          let c ← cnt.toNat?
+          let (impls, r) ← decNames c rest2
+          match r with
+          | fc :: r2 => do
+            let fcn ← fc.toNat?
+            let (fields, r3) ← decFieldDefs fuel fcn r2
+            decSchemaTypes fuel k r3 { acc with objects := acc.objects ++ [(String.ofList nm, { implements := impls, fields := fields })] }
+          | [] => none
+        | [] => none
+      | _ => none
+
+def decSchema (ts : Toks) : Option Schema :=
+  match ts with
+  | q :: cnt :: rest => do
+    let c ← cnt.toNat?
+    let (acc, r) ← decSchemaTypes (ts.length + 2) c rest {}
+    if r.isEmpty then
+      pure { inputs := { types := acc.inputs }, objects := acc.objects, interfaces := acc.interfaces, unions := acc.unions, query := tail1 q }
+    else none
+  | _ => none
+
+mutual
+/-- printing with the key order of the response kept -/
+def renderRaw : Json → List String
+  | .null => ["z"]
+  | .bool b => [if b then "t" else "f"]
+  | .int z => ["i" ++ toString z]
+  | .float t => ["d" ++ t]
+  | .str s => ["s" ++ s]
+  | .arr xs => ("a" ++ toString xs.length) :: renderRawList xs
+  | .obj kvs => ("o" ++ toString kvs.length) :: renderRawFields kvs
+def renderRawList : List Json → List String
+  | [] => []
+  | x :: xs => renderRaw x ++ renderRawList xs
+def renderRawFields : List (String × Json) → List String
+  | [] => []
+  | (k, v) :: rest => ("k" ++ k) :: renderRaw v ++ renderRawFields rest
+end
+
+def pathText (p : Path) : String :=
+  "/".intercalate (p.map fun s => match s with | .key k => "k" ++ k | .idx i => "#" ++ toString i)
+
+def insertStr (x : String) : List String → List String
+  | [] => [x]
+  | y :: ys => if x < y then x :: y :: ys else y :: insertStr x ys
+
+def sortStr : List String → List String
+  | [] => []
+  | x :: xs => insertStr x (sortStr xs)
+
+def countSels : Nat → List Sel → Nat
+  | 0, _ => 0
+  | _ + 1, [] => 0
+  | n + 1, s :: rest => 1 + countSels n s.fsub + (match s with | .inline _ _ sub => countSels n sub | _ => 0) + countSels n rest
+
+def exec (schema op vars world : String) : String :=
+  let ot := toks op
+  let vt := toks vars
+  let wt := toks world
+  let fuel := ot.length + vt.length + wt.length + 8
+  match decSchema (toks schema), ot, wt with
+  | some sch, fc :: orest, wc :: wrest =>
+    match fc.toNat?, wc.toNat? with
+    | some fcn, some wcn =>
+      match decFrags fuel fcn orest, decWorld fuel wcn wrest, decVal fuel vt with
+      | some (frags, r), some (w, []), some (.obj vkvs, []) =>
+        match decSels fuel r with
+        | some (sels, []) =>
+          let env : Env := { schema := sch, frags := frags, vars := Value.toJsonFields vkvs, world := w, cfuel := 4 * ot.length + 16 }
+          match execute (ot.length + wt.length + 16) env sels with
+          | .outOfFuel => "out-of-fuel"
+          | .response resp =>
+            let d := match resp.data with
+              | some m => renderRaw (.obj m)
+              | none => ["N"]
+            " ".intercalate ("data" :: d) ++ " | errs " ++ ";".intercalate (sortStr (resp.errors.map pathText))
+        | _ => "bad-case"
+      | _, _, _ => "bad-case"
+    | _, _ => "bad-case"
+  | _, _, _ => "bad-case"
+
+end D26
+
+def c26 (stream : String) (fs : List String) : String :=
+  match stream, fs with
+  | "c26.exec", [schema, op, vars, world] => D26.exec schema op vars world
+  | _, _ => "unknown-stream"
 
 end Driver
